@@ -403,6 +403,7 @@ PROPERTIES = {
                  "optional tasks with timer steps, a quarter of the modules shuts down and restarts after its k-th message); for every model a fault-free baseline run gives the occurrence counts, then EVERY single placement "
                  "(module x {at_sim_start(stage), start stage of the restart, k-th handle_message before / after its sends, at_sim_end} x {non-catching, catching stereotype} (a share of the handler faults is raised inside the simulator: the documented panic of sending on a transit gate; every second handler placement also in the form 'spawn a task that would send a token to a neighbour, then fault' - the task must never be polled), plus every step "
                  "of a joined task, registered with join and with try_join - half of the modules register a never-finishing service task with try_join first; only the task of a module's first incarnation is faulty, so that after a restart the old task's panic must still be reported while the module and its new task run on) and pairs of placements in two modules (all pairs for small models, 60 sampled otherwise) are executed twice with the real "
+                 "also up to 8 pairs per model inside ONE module: its must-join task panics at a step and, later in the fault-free order, one of its callbacks panics under the catching stereotype (the module is inactive at the end of the run, the task's panic must still be reported). "
                  "code: A panics at the point, B falls silent there. Oracle: A returns (no unwind, no abort: a dead worker counts as violation), the error lists "
                  "exactly the modules whose reached fault is not caught (PanicError / JoinError paths), every non-faulty module's log in A equals its log in B, the "
                  "faulty module handles nothing after the fault and is reported inactive at tear-down, the statics (module context, event buffer, globals) are "
@@ -420,7 +421,8 @@ PROPERTIES = {
             "quick": {"fault_placements_executed": 250000, "double_fault_placements": 40000, "faults_at_sim_start": 15000, "faults_at_sim_end": 10000,
                       "faults_in_handle_message_after_sending": 120000, "faults_in_joined_task": 8000, "faults_with_catching_stereotype": 120000,
                       "followup_simulations": 250000, "models": 900, "faults_in_try_joined_task_registered_after_a_running_one": 2000,
-                      "faults_right_after_spawning_a_task_that_would_send": 30000},
+                      "faults_right_after_spawning_a_task_that_would_send": 30000,
+                      "task_fault_then_caught_callback_fault_in_one_module": 2500},
             "thorough": {"fault_placements_executed": 4000000, "double_fault_placements": 600000, "faults_in_joined_task": 120000, "models": 15000,
                          "faults_in_try_joined_task_registered_after_a_running_one": 30000,
                       "faults_right_after_spawning_a_task_that_would_send": 300000},
@@ -429,7 +431,8 @@ PROPERTIES = {
     "C20": {
         "level": "exploration",
         "crash_is_violation": True,
-        "rule": ("generated simulations: 1..6 modules (top-level modules form a gate ring, possibly a self loop; others are children), ring channels none / latency "
+        "rule": ("(every second self message of a module carries a zero-sized payload type with a destructor, counted per tag) "
+                 "generated simulations: 1..6 modules (top-level modules form a gate ring, possibly a self loop; others are children), ring channels none / latency "
                  "only / slow (messages pile up in the channel queue) / fast, per module: self messages, a start burst on the ring, tasks (sleeper loop, receiver "
                  "on a never-fed channel, pending, finite, spawn_local sleeper), forwarding with a hop budget, messages held in module state, shutdown / "
                  "shutdown-and-restart / panic at the k-th message, messages sent from at_sim_end, processing element, channel probe, in a fifth of the models a closed ring of 3..6 transit gates (never used for traffic) with a channel that carries a probe, in a quarter 1..3 extra nodes built from AsyncFn::new / failable / io (task blocked on its receiver), HandlerFn and ModuleFn; identity tokens in all of "
@@ -452,7 +455,8 @@ PROPERTIES = {
                       "stops_builder_dropped": 500, "stops_runtime_dropped_before_run": 500, "stops_stepped_and_abandoned": 500, "models_with_closed_gate_ring": 5000,
                       "remaining_events_returned": 100000, "models_with_channel_backlog": 5000, "models_with_shutdown": 8000,
                       "models_sending_at_teardown": 8000, "models_with_every_limit_prefix": 800,
-                      "runs_ended_with_errors_by_rejected_sends_on_transit_gates": 500},
+                      "runs_ended_with_errors_by_rejected_sends_on_transit_gates": 500,
+                      "self_messages_with_zero_sized_payload_planned": 100000},
             "thorough": {"runs_ended_with_errors_by_rejected_sends_on_transit_gates": 10000, "tokens_created": 10000000, "stops_event_limit": 400000, "remaining_events_returned": 2000000, "models_with_channel_backlog": 100000,
                          "asan_tokens_created": 100000, "miri_tokens_created": 100},
         },
